@@ -162,7 +162,7 @@ Qed.
 
 Local Transparent implicit_fns vm_core resolve closure.
 
-(* ---- purity of the generated tables, except the explicit known leaks ---- *)
+(* ---- purity of the generated tables (closed by vm_compute over the GENERATED file) ---- *)
 
 Lemma tables_ok_bare : tables_ok Bare = true. Proof. vm_compute. reflexivity. Qed.
 Lemma tables_ok_std : tables_ok Std = true. Proof. vm_compute. reflexivity. Qed.
@@ -176,14 +176,8 @@ Qed.
 Lemma pure_true : forall c f, pure c f = true -> effect_of c f = [].
 Proof. intros c f. unfold pure. destruct (effect_of c f); [reflexivity | discriminate]. Qed.
 
-Lemma mem_In : forall s l, mem s l = true -> In s l.
-Proof.
-  intros s l H. unfold mem in H. apply existsb_exists in H. destruct H as [x [Hx He]].
-  apply String.eqb_eq in He. subst x. exact Hx.
-Qed.
-
 Lemma tables_ok_parts : forall c, tables_ok c = true ->
-  forallb (binding_ok c) (bindings c) = true /\ forallb (special_ok c) special_forms = true /\
+  forallb (binding_pure c) (bindings c) = true /\ forallb (special_pure c) special_forms = true /\
   forallb (binding_pure c) implicit_prims = true /\ forallb (pure c) vm_core = true.
 Proof.
   intros c H. unfold tables_ok in H.
@@ -191,42 +185,43 @@ Proof.
   apply andb_prop in H. destruct H as [H3 H4]. repeat split; assumption.
 Qed.
 
-Theorem sandbox_tables_pure_except : forall c n k f, sandboxed c = true ->
-  In (n, k, f) (bindings c) -> k <> KValue -> effect_of c f <> [] -> In n (known_leak_bindings c).
+Lemma binding_pure_spec : forall c n k f, binding_pure c (n, k, f) = true -> k <> KValue -> effect_of c f = [].
 Proof.
-  intros c n k f Hs Hin Hk He.
-  destruct (tables_ok_parts c (tables_ok_sandboxed c Hs)) as [H1 _].
-  rewrite forallb_forall in H1. specialize (H1 _ Hin). simpl in H1.
-  apply orb_prop in H1. destruct H1 as [H1|H1].
-  - destruct k; simpl in H1; try discriminate. exfalso. apply Hk. reflexivity.
-  - apply orb_prop in H1. destruct H1 as [H1|H1].
-    + exfalso. apply He. apply pure_true. exact H1.
-    + apply mem_In. exact H1.
+  intros c n k f H Hk. simpl in H. apply orb_prop in H. destruct H as [H|H].
+  - destruct k; simpl in H; try discriminate. exfalso. apply Hk. reflexivity.
+  - apply pure_true. exact H.
 Qed.
 
-Theorem special_forms_pure_except : forall c n f, sandboxed c = true ->
-  In (n, f) special_forms -> effect_of c f <> [] -> In n known_leak_specials.
+Theorem sandbox_tables_pure : forall c n k f, sandboxed c = true ->
+  In (n, k, f) (bindings c) -> k <> KValue -> effect_of c f = [].
 Proof.
-  intros c n f Hs Hin He.
+  intros c n k f Hs Hin Hk.
+  destruct (tables_ok_parts c (tables_ok_sandboxed c Hs)) as [H1 _].
+  rewrite forallb_forall in H1. exact (binding_pure_spec c n k f (H1 _ Hin) Hk).
+Qed.
+
+Theorem special_forms_pure : forall c n f, sandboxed c = true ->
+  In (n, f) special_forms -> effect_of c f = [].
+Proof.
+  intros c n f Hs Hin.
   destruct (tables_ok_parts c (tables_ok_sandboxed c Hs)) as [_ [H2 _]].
-  rewrite forallb_forall in H2. specialize (H2 _ Hin). unfold special_ok in H2. simpl in H2.
-  apply orb_prop in H2. destruct H2 as [H2|H2].
-  - exfalso. apply He. apply pure_true. exact H2.
-  - apply mem_In. exact H2.
+  rewrite forallb_forall in H2. apply pure_true. exact (H2 _ Hin).
+Qed.
+
+Lemma implicit_never_value : forall n k f, In (n, k, f) implicit_prims -> k <> KValue.
+Proof.
+  intros n k f Hin.
+  assert (Hall : forallb (fun b => match b with (_, k, _) => negb (is_value k) end) implicit_prims = true)
+    by (vm_compute; reflexivity).
+  rewrite forallb_forall in Hall. specialize (Hall _ Hin). simpl in Hall.
+  intros E. subst k. discriminate Hall.
 Qed.
 
 Theorem implicit_prims_pure : forall c n k f, sandboxed c = true -> In (n, k, f) implicit_prims -> effect_of c f = [].
 Proof.
   intros c n k f Hs Hin.
   destruct (tables_ok_parts c (tables_ok_sandboxed c Hs)) as [_ [_ [H3 _]]].
-  rewrite forallb_forall in H3. specialize (H3 _ Hin). simpl in H3.
-  apply orb_prop in H3. destruct H3 as [H3|H3].
-  - (* implicit entries are never values *)
-    assert (Hall : forallb (fun b => match b with (_, k, _) => negb (is_value k) end) implicit_prims = true)
-      by (vm_compute; reflexivity).
-    rewrite forallb_forall in Hall. specialize (Hall _ Hin). simpl in Hall.
-    rewrite H3 in Hall. discriminate.
-  - apply pure_true. exact H3.
+  rewrite forallb_forall in H3. exact (binding_pure_spec c n k f (H3 _ Hin) (implicit_never_value n k f Hin)).
 Qed.
 
 Theorem vm_core_pure : forall c f, sandboxed c = true -> In f vm_core -> effect_of c f = [].
@@ -243,67 +238,36 @@ Proof.
   exists n, k. split; assumption.
 Qed.
 
-Lemma in_fns_named : forall n k f bs, In (n, k, f) bs -> is_value k = false -> In f (fns_named n bs).
+(* every primitive of the closure of a sandboxed configuration is effect-free *)
+Theorem closure_pure : forall c f, sandboxed c = true -> In f (closure c) -> effect_of c f = [].
 Proof.
-  intros n k f bs Hin Hk. unfold fns_named. apply in_flat_map. exists (n, k, f). split; [exact Hin|].
-  rewrite String.eqb_refl, Hk. simpl. left. reflexivity.
-Qed.
-
-Lemma closure_pure_except : forall c f, sandboxed c = true ->
-  In f (closure c) -> effect_of c f <> [] -> In f (leak_fns c).
-Proof.
-  intros c f Hs Hin He. unfold closure in Hin.
+  intros c f Hs Hin. unfold closure in Hin.
   apply in_app_or in Hin. destruct Hin as [Hin|Hin].
   - apply in_prim_fns in Hin. destruct Hin as [n [k [Hb Hk]]].
-    assert (Hn : In n (known_leak_bindings c)).
-    { apply (sandbox_tables_pure_except c n k f Hs Hb); [|exact He]. intros E. subst k. discriminate Hk. }
-    unfold leak_fns. apply in_or_app. left. apply in_flat_map. exists n. split; [exact Hn|].
-    exact (in_fns_named n k f _ Hb Hk).
+    apply (sandbox_tables_pure c n k f Hs Hb). intros E. subst k. discriminate Hk.
   - apply in_app_or in Hin. destruct Hin as [Hin|Hin].
     + apply in_map_iff in Hin. destruct Hin as [[n f'] [Hf Hin]]. simpl in Hf. subst f'.
-      pose proof (special_forms_pure_except c n f Hs Hin He) as Hn.
-      unfold leak_fns. apply in_or_app. right. apply in_flat_map. exists n. split; [exact Hn|].
-      unfold specials_named. apply in_flat_map. exists (n, f). split; [exact Hin|].
-      simpl. rewrite String.eqb_refl. left. reflexivity.
+      exact (special_forms_pure c n f Hs Hin).
     + apply in_app_or in Hin. destruct Hin as [Hin|Hin].
-      * exfalso. apply He. unfold implicit_fns in Hin. apply in_prim_fns in Hin.
+      * unfold implicit_fns in Hin. apply in_prim_fns in Hin.
         destruct Hin as [n [k [Hb _]]]. exact (implicit_prims_pure c n k f Hs Hb).
-      * exfalso. apply He. exact (vm_core_pure c f Hs Hin).
+      * exact (vm_core_pure c f Hs Hin).
 Qed.
 
-(* Whatever effectful primitive a program reaches in a sandboxed configuration is one of the known leaks. *)
-Theorem sandbox_no_effect_except : forall c p f, sandboxed c = true ->
-  In f (run_abs c p) -> effect_of c f <> [] -> In f (leak_fns c).
+(* generic step: a run all of whose primitives are effect-free has no effect *)
+Lemma no_effect_when_pure : forall c l, (forall f, In f l -> effect_of c f = []) -> effects_of c l = [].
 Proof.
-  intros c p f Hs Hin He. apply (closure_pure_except c f Hs); [|exact He].
-  exact (capability_closed c p f Hin).
+  intros c l. unfold effects_of. induction l as [|x xs IH]; intros Hl; simpl; [reflexivity|].
+  rewrite (Hl x (or_introl eq_refl)). simpl. apply IH. intros f Hf. apply Hl. right. exact Hf.
 Qed.
 
-Lemma effect_dec : forall c f, {effect_of c f = []} + {effect_of c f <> []}.
-Proof. intros c f. destruct (effect_of c f); [left; reflexivity | right; discriminate]. Qed.
-
-(* A program that avoids the known leaks has no effect at all. *)
-Theorem sandbox_no_effect : forall c p, sandboxed c = true ->
-  (forall f, In f (leak_fns c) -> ~ In f (run_abs c p)) -> effects_of c (run_abs c p) = [].
+(* THE PROPERTY: in a sandboxed configuration no program has any effect. *)
+Theorem sandbox_no_effect : forall c p, sandboxed c = true -> effects_of c (run_abs c p) = [].
 Proof.
-  intros c p Hs Havoid. unfold effects_of.
-  assert (H : forall l, (forall f, In f l -> effect_of c f = []) -> flat_map (effect_of c) l = []).
-  { induction l as [|x xs IH]; intros Hl; simpl; [reflexivity|].
-    rewrite (Hl x (or_introl eq_refl)). simpl. apply IH. intros f Hf. apply Hl. right. exact Hf. }
-  apply H. intros f Hf. destruct (effect_dec c f) as [E|E]; [exact E|].
-  exfalso. exact (Havoid f (sandbox_no_effect_except c p f Hs Hf E) Hf).
+  intros c p Hs. apply no_effect_when_pure. intros f Hf.
+  apply (closure_pure c f Hs). exact (capability_closed c p f Hf).
 Qed.
 
-(* When a configuration has no known leak left and its tables are pure, no program has any effect. *)
-Theorem sandbox_no_effect_when_pure : forall c p, sandboxed c = true ->
-  leak_fns c = [] -> effects_of c (run_abs c p) = [].
-Proof.
-  intros c p Hs Hl. apply (sandbox_no_effect c p Hs). intros f Hf. rewrite Hl in Hf. destruct Hf.
-Qed.
-
-(* every entry reported impure by the executable filter is a known leak (what the check prints) *)
-Lemma impure_entries_known_bare :
-  forallb (fun e => match e with (t, n, _) => orb (andb (String.eqb t "binding") (mem n (known_leak_bindings Bare)))
-                                                  (andb (String.eqb t "special") (mem n known_leak_specials)) end)
-          (impure_entries Bare) = true.
-Proof. vm_compute. reflexivity. Qed.
+(* the executable filter the check prints from finds nothing *)
+Lemma impure_entries_none : forall c, sandboxed c = true -> impure_entries c = [].
+Proof. intros [] H; try discriminate H; vm_compute; reflexivity. Qed.
